@@ -20,7 +20,7 @@ MIN_NONTRIVIAL = {"quick": 400, "thorough": 4000}
 REQUIRED_FUNCTIONS = ["listener.py:BlackbirdListener.exitForloop", "listener.py:BlackbirdListener.enterForloop", "listener.py:BlackbirdListener.exitStatement"]
 FUNCTIONS = REQUIRED_FUNCTIONS
 REQUIRED_TAGS = ["loop-range", "loop-range-step", "loop-list", "loop-empty", "loop:int", "loop:float", "loop:bool", "loop:str",
-                 "neg:use-after-loop", "neg:wrong-type", "same-variable-twice", "body:mode", "body:index", "body:kwarg", "body:list", "body:regref", "debatable-value", "loopvar:underscore"]
+                 "neg:use-after-loop", "neg:wrong-type", "neg:own-name-in-value-list", "same-variable-twice", "body:mode", "body:index", "body:kwarg", "body:list", "body:regref", "debatable-value", "loopvar:underscore"]
 ASSUMPTIONS = ["the unrolling substitutes the reference value of each loop value, rendered as a bracketed literal of the declared type",
                "for negative cases any exception counts as 'refused'"]
 PH = "\x00"
@@ -254,7 +254,21 @@ def run(ctx):
             ctx.out_of_domain("generator gave up")
             continue
         c = rng.random()
-        if c < 0.15:
+        if c < 0.06:
+            # the loop variable's own name inside its value list (second position or later): the values are what is
+            # written before the loop runs, where that name is not defined
+            its = list(items)
+            idx = [i_ for i_, it in enumerate(its) if it[0] == "loop"][0]
+            _, var_, vt, hdr, body = its[idx]
+            if vt in ("int", "float"):
+                first = rng.choice(["1", "2", "0"]) if vt == "int" else rng.choice(["0.5", "1.5"])
+                rest = [rng.choice(["%s + 1", "%s", "2 * %s", "%s - 1"]) % var_ for _ in range(rng.choice([1, 2]))]
+                lst = ", ".join([first] + rest)
+                its[idx] = ("loop", var_, vt, rng.choice(["[%s]", "(%s)", "%s"]) % lst, body)
+                check_negative(ctx, render_loop(its), "neg:own-name-in-value-list", "undefined")
+            else:
+                ctx.out_of_domain("own-name negative needs a numeric loop")
+        elif c < 0.15:
             # the last loop's variable used after the loop
             last = [it for it in items if it[0] == "loop"][-1]
             use = rng.choice(["G(%s) | 0", "G | %s", "G(k=%s) | 1", "G(k=[%s]) | 1", "G(1 + %s) | 2"]) % last[1]
@@ -318,7 +332,7 @@ def replay(w):
 
     c = C()
     if w.get("negative"):
-        kind = {"neg:use-after-loop": "undefined", "neg:wrong-type": "loop-type"}[w["negative"]]
+        kind = {"neg:use-after-loop": "undefined", "neg:wrong-type": "loop-type", "neg:own-name-in-value-list": "undefined"}[w["negative"]]
         check_negative(c, w["text"], w["negative"], kind)
     else:
         replay_positive(c, w["text"], w["unrolled"])
